@@ -61,7 +61,10 @@ def volume_and_facets(normals, energies, verts, tol=1e-7):
     vol = 0.0
     nfac = 0
     scale = max(1.0, np.abs(e).max())
-    for ni, ei in zip(n, e):
+    for i, (ni, ei) in enumerate(zip(n, e)):
+        # a half-space listed twice bounds the region once: its face counts once
+        if any(np.abs(n[j] - ni).max() < 1e-12 and abs(e[j] - ei) < 1e-12 * scale for j in range(i)):
+            continue
         on = verts[np.abs(verts @ ni - ei) < tol * scale]
         if len(on) < 3:
             continue
